@@ -36,5 +36,8 @@ fi
 echo "--- checks against a scratch worktree of /repo $BASE with the change applied:"
 ( cd $WT && rm -f $demo && git apply $SD/patch.diff ) || { echo "PATCH DOES NOT APPLY"; exit 2; }
 for p in "$@"; do
-  VERIF_REPO=$WT $V/check $p 2>&1 | grep -E "^(VIOLATION|KNOWN|INCONCLUSIVE|NOTE|  signature|$p )" | cut -c1-230 | head -14
+  # (observations that belong to other properties are only counted: there can be dozens)
+  VERIF_REPO=$WT $V/check $p > $WT/.check.out 2>&1
+  grep -E "^(VIOLATION|KNOWN|INCONCLUSIVE|  signature|$p )" $WT/.check.out | cut -c1-230 | head -40
+  echo "($(grep -c '^NOTE' $WT/.check.out) observations attributed to other properties)"
 done
